@@ -1,9 +1,10 @@
 (* C03: the side conditions of the determinism theorems, and what equal as finite maps means.
 
-   dt_vok na v     every map inside v has keys that are ints or strings with pairwise different string
-                   forms (what any map[string]T or map[int]T satisfies; a map[interface{}]T holding both 1
-                   and the string 1 does not); with na = true, additionally no non-nil pointer and no
-                   func value anywhere in v
+   dt_vok st na v  every map inside v has keys that are ints or strings, pairwise different as Go keys (every
+                   map a Go program can build from such keys); with st = true their string forms are
+                   pairwise different as well (what any map[string]T or map[int]T satisfies; a
+                   map[interface{}]T holding both 1 and the string 1 does not); with na = true, additionally
+                   no non-nil pointer and no func value anywhere in v
    dt_eok gm e     when gm = true (hash literals are evaluated by ranging over a Go map keyed by node):
                    the keys of every hash literal in e are string or integer literals with pairwise
                    different texts; no condition when gm = false
@@ -12,25 +13,26 @@ From Coq Require Import List Permutation.
 From Twig Require Import Base.Bytes Model.Ast Model.Value Model.Determ.
 Import ListNotations.
 
-Inductive dt_vok (na : bool) : value -> Prop :=
-| vok_null : dt_vok na VNull
-| vok_bool b : dt_vok na (VBool b)
-| vok_int z : dt_vok na (VInt z)
-| vok_str s : dt_vok na (VStr s)
-| vok_list t xs : Forall (dt_vok na) xs -> dt_vok na (VList t xs)
+Inductive dt_vok (st na : bool) : value -> Prop :=
+| vok_null : dt_vok st na VNull
+| vok_bool b : dt_vok st na (VBool b)
+| vok_int z : dt_vok st na (VInt z)
+| vok_str s : dt_vok st na (VStr s)
+| vok_list t xs : Forall (dt_vok st na) xs -> dt_vok st na (VList t xs)
 | vok_map t m :
-    NoDup (map (fun kv => dt_keystr (fst kv)) m) ->
+    NoDup (map (fun kv => dt_key_code (fst kv)) m) ->
+    (st = true -> NoDup (map (fun kv => dt_keystr (fst kv)) m)) ->
     Forall (fun kv => dt_is_key (fst kv) = true) m ->
-    Forall (fun kv => dt_vok na (snd kv)) m ->
-    dt_vok na (VMap t m)
-| vok_struct ty fs : Forall (fun f => dt_vok na (snd f)) fs -> dt_vok na (VStruct ty fs)
-| vok_ptr_nil : dt_vok na (VPtr None)
-| vok_ptr v : na = false -> dt_vok na v -> dt_vok na (VPtr (Some v))
-| vok_opaque id : na = false -> dt_vok na (VOpaque id)
-| vok_macro t n : dt_vok na (VMacro t n)
-| vok_module t : dt_vok na (VModule t).
+    Forall (fun kv => dt_vok st na (snd kv)) m ->
+    dt_vok st na (VMap t m)
+| vok_struct ty fs : Forall (fun f => dt_vok st na (snd f)) fs -> dt_vok st na (VStruct ty fs)
+| vok_ptr_nil : dt_vok st na (VPtr None)
+| vok_ptr v : na = false -> dt_vok st na v -> dt_vok st na (VPtr (Some v))
+| vok_opaque id : na = false -> dt_vok st na (VOpaque id)
+| vok_macro t n : dt_vok st na (VMacro t n)
+| vok_module t : dt_vok st na (VModule t).
 
-Definition dt_env_ok (na : bool) (env : denv) : Prop := Forall (fun f => dt_vok na (snd f)) env.
+Definition dt_env_ok (st na : bool) (env : denv) : Prop := Forall (fun f => dt_vok st na (snd f)) env.
 
 Definition dt_lit_key (e : expr) : option bytes :=
   match e with
